@@ -3,7 +3,8 @@
     (no well-formedness is needed unless stated), every targets pair, every store oracle
     ([sat], [mined_at] arbitrary functions) and every RNG script. *)
 From V.Lib Require Import Base.
-From V.C18 Require Import Model Spec Corr Wf ProofsDead ProofsKernel ProofsLife ProofsDrive ProofsSeq ProofsStrand Bridge.
+From V.C18 Require Import Model Spec Corr Wf Store ProofsDead ProofsKernel ProofsLife ProofsDrive ProofsSeq ProofsStrand Bridge ProofsStore.
+From Coq Require Import Sorted.
 Local Open Scope Z_scope.
 
 (** The drive API offers a broadcast only for a transaction that — in the state it returns — is
@@ -136,6 +137,25 @@ Theorem C18_dead_set_least : forall s tg (P : Z -> Prop),
   (forall t d, In t (m_txs s) -> unmined t -> In d (t_deps t) -> P d -> P (t_id t)) ->
   forall x, mem x (dead_set s tg) = true -> P x.
 Proof. exact dead_set_least. Qed.
+
+(** Persistence, on the row-level model of the normalised tables (Store.v): transactions held in
+    strictly increasing id order read back equal; the order is needed (rows come back by id); and
+    over any sequence of persisted states the account holds at most one non-terminal migration,
+    the newest row is the state last written, and the pending-only read returns it exactly when it
+    is not terminal. *)
+Theorem C18_store_roundtrip : forall txs, Sorted Z.lt (map t_id txs) -> load_txs (save_txs txs) = Some txs.
+Proof. exact store_roundtrip_txs. Qed.
+Theorem C18_store_roundtrip_needs_id_order :
+  exists txs, NoDup (map t_id txs) /\ load_txs (save_txs txs) <> Some txs.
+Proof. exact store_roundtrip_needs_id_order. Qed.
+Theorem C18_one_live_migration : forall ss,
+  let st := fold_left replace_migration ss [] in
+  history_terminal st /\ (live_count st <= 1)%nat
+  /\ match rev ss with
+     | [] => True
+     | s :: _ => latest_migration st = Some s /\ get_migration st = (if is_terminal s then None else Some s)
+     end.
+Proof. exact one_live_migration. Qed.
 
 (** Bridge: whenever the implementation agrees with the model on a case ([run_case]), the
     implementation's observed outcome satisfies the property checker of Spec.v (everything
